@@ -5,7 +5,7 @@ Model of the privacy decision of pydoctor:
   the default by leading underscore / dunder, exact rules newest first, then pattern rules newest
   first (`qnmatch` may raise), cache store.
 * `Documentable.privacyClass`, `Module.privacyClass` (the `__main__` special case),
-  `Documentable.isVisible` (own class, then the parent chain), `Documentable.isPrivate`.
+  `Documentable.isVisible` (own class, then "is my parent's contents entry", then the parent chain), `Documentable.isPrivate`.
 * `utils.parse_privacy_tuple` on ASCII input (with the validation of the pattern added by
   "fix: reject a --privacy pattern that does not translate to a valid regular expression") and
   `options._convert_privacy`.
@@ -34,6 +34,10 @@ structure Obj where
   isModule : Bool
   /-- `ob.kind is None` -/
   kindNone : Bool
+  /-- `ob.parent.contents.get(ob.name) is ob`: the object is the entry of its parent's `contents`
+  (false for an older definition that `System.handleDuplicate` renamed to `name 0` when a later one
+  took its place); not read for an object without parent -/
+  inContents : Bool
   deriving DecidableEq, Repr
 
 inductive Err | reError | indexError
@@ -131,14 +135,21 @@ inductive BoolRes where
 /-- `ob.isVisible` for the chain `[ob, ob.parent, ob.parent.parent, …]`:
 ```
 isVisible = self.privacyClass is not PrivacyClass.HIDDEN
-if isVisible and self.parent: isVisible = self.parent.isVisible
-``` -/
+if isVisible and self.parent:
+    isVisible = self.parent.contents.get(self.name) is self and self.parent.isVisible
+```
+(`and` does not evaluate `self.parent.isVisible` for a superseded definition: the cache is left alone) -/
 def isVisible (rules : List Rule) (cache : Cache) : List Obj → BoolRes × Cache
   | [] => (.ok true, cache)
   | ob :: parents =>
     match privacyClass rules cache ob with
     | (.err e, c) => (.err e, c)
-    | (.ok l, c) => if l ≠ .hidden then isVisible rules c parents else (.ok false, c)
+    | (.ok l, c) =>
+      if l ≠ .hidden then
+        match parents with
+        | [] => (.ok true, c)
+        | p :: ps => if ob.inContents then isVisible rules c (p :: ps) else (.ok false, c)
+      else (.ok false, c)
 
 /-- `ob.isPrivate`: `self.privacyClass is not PrivacyClass.PUBLIC` -/
 def isPrivate (rules : List Rule) (cache : Cache) (ob : Obj) : BoolRes × Cache :=
